@@ -38,6 +38,7 @@ pub fn decode_case_a(data: &[u8]) -> Option<CaseA> {
             off_pages: 0,
             create_new: false,
             teardown: u.int_in_range(0u8..=2)?,
+            pb: false,
         };
         let mut ops = Vec::new();
         while !u.is_empty() && ops.len() < 48 {
